@@ -98,7 +98,9 @@ def obs (res : List String) (st : Store) : String :=
   let ms := sortStrs (st.mans.map (fun (n, f) => s!"{showName n}={showMFile f}"))
   let bs := sortStrs (st.blobs.map (fun (k, c) => s!"{k}:{c.length}") ++
     st.junk.map (fun (n, c) => s!"?{n.str}:{c.length}"))
-  s!"r={"+".intercalate res};l={",".intercalate ls};m={",".intercalate ms};b={",".intercalate bs}"
+  let ts := sortStrs ((st.dirs.map (fun d => "/".intercalate d ++ "/")).eraseDups ++
+    st.strays.map (fun p => "?" ++ "/".intercalate p))
+  s!"r={"+".intercalate res};l={",".intercalate ls};m={",".intercalate ms};b={",".intercalate bs};t={",".intercalate ts}"
 
 structure OState where
   st : Store
@@ -187,6 +189,10 @@ def pOp : TP Op := do
   | "dashify" => do
     let n ← pName
     pure (.dashify n)
+  | "litterman" => do
+    let k ← nat
+    let ps ← rep k hex
+    pure (.litterMan (ps.map bstr))
   | "litter" => do
     let nb ← hex
     let c ← hex
